@@ -327,7 +327,8 @@ package schema
 //@ func (xnode).children
 //@   params sortSpec
 //@   nopanic
-//@   ensures len(result) == xn_nchildren(self) && forall(i, 0, len(result), result[i] != nil && xn_dataname(result[i]) == xn_childname(self, i))
+//@   ensures len(result) == xn_nchildren(self) && forall(i, 0, len(result), result[i] != nil && xn_dataname(result[i]) == xn_childname(self, i) && xn_ident(result[i]) == xn_childident(self, i))
+//@   ensures isfresh(result)
 //@ func (xnode).path
 //@   nopanic
 //@ func (xnode).YangDataName
@@ -359,3 +360,32 @@ package schema
 //@   loop 1 invariant forallstr(k, inmap(cfgCh, k) == exists(i, 0, loopidx+1, xn_childname(c, i) == k))
 //@   loop 2 invariant keyset(cfgCh) == xn_nameset(c) && len(errs) >= 0 && (len(errs) == 0 || isfresh(errs))
 //@   loop 2 invariant iff(len(errs) > 0, exists(i, 0, sch_nchildren(xn_schema(c)), wanted(xn_schema(c), i) && visited(node_name(sch_child(xn_schema(c), i))) && !inmap(cfgCh, node_name(sch_child(xn_schema(c), i))) && mandAbsent(sch_child(xn_schema(c), i))))
+
+// ---------------------------------------------------------------------------
+// unique (C18): an error is reported iff, for some unique statement of the list, two entries have all the leaves
+// of the set and agree on every one of them.
+//@ func (List).Uniques
+//@   nopanic
+//@   ensures len(result) == sch_nuniques(self) && forall(i, 0, len(result), result[i] == sch_unique(self, i))
+//@ func getUniqueKey
+//@   assumed
+//@   ensures result == unique_key(xn_ident(c), uniques)
+//@ func uniqueString
+//@   assumed
+//@ define ukey(c, a, ui) = unique_key(xn_childident(c, a), sch_unique(xn_schema(c), ui))
+//@ define clash(c, ui, hi) = exists(a, 0, hi, exists(b, a+1, hi, ukey(c, a, ui) != "" && ukey(c, a, ui) == ukey(c, b, ui)))
+//@ func checkUnique
+//@   requires c != nil && 0 <= valType && valType <= 3 && implies(!skips(c, valType), is(xn_schema(c), List))
+//@   ensures implies(skips(c, valType), result2 && len(result1) == 0)
+//@   ensures implies(!skips(c, valType), result2 == (len(result1) == 0))
+//@   ensures implies(!skips(c, valType), result2 == !exists(ui, 0, sch_nuniques(xn_schema(c)), clash(c, ui, xn_nchildren(c))))
+//@   loop 0 invariant len(errs) >= 0 && (len(errs) == 0 || isfresh(errs)) && iff(len(errs) > 0, exists(ui, 0, loopidx+1, clash(c, ui, xn_nchildren(c))))
+//@   loop 1 invariant forall(a, 0, loopidx+1, implies(ukey(c, a, outer(loopidx)+1) != "", len(m[ukey(c, a, outer(loopidx)+1)]) >= 1))
+//@   loop 1 invariant forall(a, 0, loopidx+1, forall(b, a+1, loopidx+1, implies(ukey(c, a, outer(loopidx)+1) != "" && ukey(c, a, outer(loopidx)+1) == ukey(c, b, outer(loopidx)+1), len(m[ukey(c, a, outer(loopidx)+1)]) >= 2)))
+//@   loop 1 invariant forallstr(k, implies(len(m[k]) >= 1, k != "" && exists(a, 0, loopidx+1, ukey(c, a, outer(loopidx)+1) == k)))
+//@   loop 1 invariant forallstr(k, implies(len(m[k]) >= 2, exists(a, 0, loopidx+1, exists(b, a+1, loopidx+1, ukey(c, a, outer(loopidx)+1) == k && ukey(c, b, outer(loopidx)+1) == k))))
+//@   loop 1 invariant forallstr(k, iff(inmap(m, k), len(m[k]) >= 1))
+//@   loop 1 invariant len(looprange) == xn_nchildren(c) && forall(i, 0, len(looprange), looprange[i] != nil && xn_ident(looprange[i]) == xn_childident(c, i))
+//@   loop 1 invariant forallstr(k, implies(inmap(m, k), sref(m[k]) > sref(looprange)))
+//@   loop 2 invariant len(errs) >= len(outer(errs)) && (len(errs) == 0 || isfresh(errs)) && iff(len(errs) > len(outer(errs)), !forallstr(k, !(visited(k) && len(m[k]) >= 2)))
+//@   loop 3 invariant isfresh(keys) || len(keys) == 0
